@@ -155,8 +155,29 @@ class NP(object):
     def _u(self, n):
         self.used.add('numpy.' + n)
 
+    def _is_int_dtype(self, dtype):
+        nm = dtype if isinstance(dtype, str) else getattr(dtype, '__name__', '')
+        return dtype is int or nm in ('int', 'b_int', 'int64', 'int32', 'intc', 'int_', 'long')
+
+    def _as_int(self, a):
+        """conversion to an integer dtype truncates: a real symbol becomes the uninterpreted trunc(x) (equal to x only for integers)"""
+        out = _np.empty(a.shape, dtype=object)
+        for idx in _np.ndindex(a.shape):
+            v = pysym._unwrap0(a[idx])
+            if isinstance(v, P) and not v.is_const() and not pysym.is_int_valued(v):
+                v = P.atom('trunc(%s)' % normal(v).text())
+            elif isinstance(v, P) and v.is_const():
+                c_ = v.const_value()
+                v = P.const(int(c_)) if c_ == c_ else v
+            elif isinstance(v, float):
+                v = int(v)
+            out[idx] = v
+        return out
+
     def array(self, x, dtype=None, copy=True):
         self._u('array')
+        if self._is_int_dtype(dtype) and not isinstance(x, (InArray, OutArray, Opaque, pysym.MemView)):
+            return self._as_int(_obj(x))
         if isinstance(x, pysym.MemView):
             return x.f['of']            # numpy takes the buffer of a typed memoryview
         if isinstance(x, InArray):
@@ -169,6 +190,8 @@ class NP(object):
     def asarray(self, x, dtype=None):
         if isinstance(x, InArray):
             return x                    # no copy when the dtype already matches: the memory layout of the argument is kept
+        if self._is_int_dtype(dtype) and not isinstance(x, (InArray, OutArray, Opaque, pysym.MemView)):
+            return self._as_int(_obj(x))
         if isinstance(x, _np.ndarray) and x.dtype == object:
             return x                    # likewise for an array of the executor (a caller's float64 array): the SAME object comes back
         return self.array(x, dtype)
@@ -290,20 +313,41 @@ class NP(object):
             return _AbsVec(x)
         return self.interp.builtins['abs'](x)
 
+    def isclose(self, a, b, rtol=1e-05, atol=1e-08, equal_nan=False):
+        # numpy's definition, |a - b| <= atol + rtol*|b|, decided on the current path (scalars only)
+        a, b = pysym._unwrap0(a), pysym._unwrap0(b)
+        if not all(isinstance(x, (P, int, float, Fraction)) and not isinstance(x, bool) for x in (a, b)):
+            raise CheckerError('numpy.isclose of %s and %s is not modelled' % (type(a).__name__, type(b).__name__))
+        a = a if isinstance(a, P) else P.const(a)
+        b = b if isinstance(b, P) else P.const(b)
+        tol = P.const(atol) + P.const(rtol) * self.interp.builtins['abs'](b)
+        return bool(self.interp.truth(pysym.compare('<=', a - b, tol)) and self.interp.truth(pysym.compare('<=', b - a, tol)))
+
     def isnan(self, x):
         return False
 
     def isinf(self, x):
         return False
 
+    def _abstract_anyall(self, x, what):
+        # an array whose entries are not enumerated (input array of symbolic length, abstract array): one boolean unknown per array
+        nm = getattr(x, 'name', None) or getattr(x, 'term', None)
+        if nm is None:
+            raise CheckerError('np.%s of %s is not modelled' % (what, type(x).__name__))
+        return self.interp.truth(pysym.Cond('atom', '%s(%s)' % (what, nm if isinstance(nm, str) else repr(nm))))
+
     def any(self, x):
         if isinstance(x, bool):
             return x
+        if isinstance(x, (InArray, OutArray)) or (hasattr(x, 'term') and hasattr(x, 'shape') and not isinstance(x, _np.ndarray)):
+            return self._abstract_anyall(x, 'any')
         return any(self.interp.truth(v) for v in _obj(x).reshape(-1))
 
     def all(self, x):
         if isinstance(x, bool):
             return x
+        if isinstance(x, (InArray, OutArray)) or (hasattr(x, 'term') and hasattr(x, 'shape') and not isinstance(x, _np.ndarray)):
+            return self._abstract_anyall(x, 'all')
         return all(self.interp.truth(v) for v in _obj(x).reshape(-1))
 
     def linspace(self, a, b, n=50):
@@ -338,9 +382,6 @@ class NP(object):
 
     def allclose(self, a, b, **k):
         raise CheckerError('numpy.allclose needs a contract')
-
-    def isclose(self, a, b, **k):
-        raise CheckerError('numpy.isclose needs a contract')
 
 
 class _AbsVec(object):
